@@ -38,7 +38,10 @@ C05_QUICK = ["zip_lo", "zip_hi", "swizzle_dyn", "compress", "expand", "extract_p
 
 C09_OPS = ["reduce_add", "reduce_max", "reduce_min"]
 
+C16_OPS = ["cadd", "csub", "cneg", "cconj", "creal", "cimag", "ceq", "cneq"]
+
 PROPS = {
+    "C16": dict(ops=C16_OPS, types=FLOAT_TYPES, design="5.17"),
     "C09": dict(ops=C09_OPS, types=ALL_TYPES, design="5.10"),
     "C05": dict(ops=C05_OPS, quick_ops=C05_QUICK, types=ALL_TYPES, design="5.6", optional=True),
     "C06": dict(ops=C06_OPS, types=ALL_TYPES, design="5.7"),
@@ -284,6 +287,9 @@ def main(argv):
         if a.prop == "C13":
             from . import c13
             return c13.run(a.tier, seed)
+        if a.prop == "C12":
+            from . import c12
+            return c12.run(a.tier, seed)
         if a.prop == "C17":
             return run_c17(a.tier, seed, a.ops.split(",") if a.ops else None, a.types.split(",") if a.types else None)
         print("unknown property", a.prop)
